@@ -71,7 +71,7 @@ def float_cases(seed, n):
 
 def float_pipe(ctx, verdict, cases, name="orientx"):
     obs = list(vlib.run_driver(ctx, "orientx", cases, for_tlc=False))
-    exprs, sigs = [], []
+    exprs, sigs, reuse = [], [], []
     for c, o in zip(cases, obs):
         if o["ev"] != "ok":
             exprs.append("FALSE")
@@ -85,6 +85,10 @@ def float_pipe(ctx, verdict, cases, name="orientx"):
         exprs.append("OrientPerms(%s, %s, %s, %s) /\\ OrientPerms(%s, %s, %s, %s)" % (A, B, C, got1, A, B, C, got2))
         zeros = sum(1 for x in o["res"] if x[0] == 0)
         sigs.append("orient|float|%s|%s" % (c["fam"], "some-collinear" if zeros else "sign"))
+        # the same triple handed over in three coordinate slices that every case overwrites in place (first and last call of the
+        # case): the answer is for the values they hold now, not for what an earlier call saw in that storage
+        reuse.append(("Orient(%s, %s, %s) = %s /\\ Orient(%s, %s, %s) = %s"
+                      % (A, B, C, ec.tla_int(o["reuse"][0]), A, B, C, ec.tla_int(o["reuse"][1])), c))
     # vacuity guard (not a verdict): how many of the triples does a plain float64 evaluation of the determinant get wrong?
     # Those are the ones that need the filter's hand-over to extended precision; a generator that drifted into
     # well-conditioned territory would leave the exact stage unexercised.
@@ -101,7 +105,11 @@ def float_pipe(ctx, verdict, cases, name="orientx"):
     ctx.coverage_extra["float_triples_a_plain_float_determinant_gets_wrong"] = hard
     if len(obs) >= 100 and hard * 20 < len(obs):
         raise vlib.Infra("only %d of %d float triples are ill-conditioned: the extended-precision stage is hardly exercised" % (hard, len(obs)))
-    return ec.apalache_obs(ctx, verdict, "OrientX", exprs, cases, sigs, name)
+    bad = ec.apalache_obs(ctx, verdict, "OrientX", exprs, cases, sigs, name)
+    ec.apalache_obs(ctx, verdict, "OrientXReuse", [e for e, _ in reuse], [c for _, c in reuse],
+                    ["orient|float|coordinates-overwritten-in-place"] * len(reuse), name)
+    ctx.coverage_extra["float_triples_in_reused_storage"] = len(reuse)
+    return bad
 
 
 PIPES = {"orient": ec.pipe("orient"), "orientx": float_pipe}
